@@ -412,13 +412,18 @@ func v6Fix(res *OracleResult, r *Rng, n int, thorough bool, seeds []string, seen
 			// decoded as a receiver decodes: from a buffer that is reused at once
 			rb := append([]byte{}, b...)
 			m0, err := dhcpv6.FromBytes(rb)
-			for i := range rb {
-				rb[i] ^= 0x5a
-			}
 			if err != nil {
 				return
 			}
+			pre := sxMsg6(m0)
+			for i := range rb {
+				rb[i] ^= 0x5a
+			}
 			acc = true
+			if post := sxMsg6(m0); post != pre {
+				what = "the decoded message changed when its source buffer was reused, before anything was re-encoded: " + firstDiff(pre, post)
+				return
+			}
 			b1 := m0.ToBytes()
 			m1, err := dhcpv6.FromBytes(b1)
 			if err != nil {
